@@ -164,7 +164,7 @@ def _shape_shard(args):
     return res
 
 
-CH = ["x", " ", "<", ">", "&", '"', "'", "=", "-", "é", "😀", "\n", "`", "&amp;"]
+CH = ["x", " ", "<", ">", "&", '"', "'", "=", "-", "é", "😀", "\n", "`", "&amp;", "É"]     # (É: its entity also has a legacy form without ';')
 
 
 def char_docs(maxlen):
